@@ -114,6 +114,11 @@ pub struct CaseResult {
 pub fn run_case(case: &Case, keep_log: bool) -> CaseResult {
     let mut e = match Engine::new(&case.setup) {
         Ok(e) => e,
+        Err(msg) if msg.starts_with("benign:") => {
+            let mut stats = Stats::default();
+            stats.bump("setup_rejected_benign");
+            return CaseResult { stats, viol: None, log: vec![msg] };
+        }
         Err(msg) => {
             return CaseResult {
                 stats: Stats::default(),
